@@ -36,6 +36,10 @@ class WeirdFault(InjectedFault):
         return "WeirdFault()"
 
 
+class InjectedOSError(InjectedFault, OSError):
+    """A user callback failing the way the operating system makes it fail (disk full while a state is written)."""
+
+
 # kinds of user callbacks (the vocabulary of the Proto model)
 STEP_CBS = {"observe", "step", "affect"}
 TRAIN_CBS = {"t_setup", "train", "t_teardown", "sync"}
@@ -178,6 +182,7 @@ class Scenario:
     loop_quantum: float = 0.25        # timed mode: virtual duration of one loop delay
     prelaunch: bool = False           # run a short first launch() and start the scenario from its final state
     downtime: float = 0.0             # real (virtual) seconds between the preparatory launch and the scenario's
+    reuse_components: bool = False    # the scenario's launch() gets the very objects the preparatory launch() used
     budget: int = 20000
 
     @staticmethod
@@ -677,7 +682,8 @@ class Harness:
                 self.saves.clear()
                 self.cb_counts.clear()
                 self.threads_by_status.clear()
-                comps = build_components(self)
+                if not sc.reuse_components:
+                    comps = build_components(self)
                 s.log("prelaunch_done", str(saved_state_path.name))
                 s.log("data", "init", self.prelaunch_files)
             cfg = LaunchConfig(
@@ -766,6 +772,8 @@ class _Cb:
                 # every second injected fault is an exception that cannot be formatted
                 if (self.k + len(self.comp)) % 2 == 0:
                     raise WeirdFault(f"{self.comp}.{self.name}#{self.k}")
+                if self.name == "save":
+                    raise InjectedOSError(28, f"No space left on device ({self.comp}.{self.name}#{self.k})")
                 raise InjectedFault(f"{self.comp}.{self.name}#{self.k}")
         s.log("cb_end", f"{self.comp}.{self.name}", self.k)
         return False
